@@ -315,7 +315,7 @@ Lemma drain_truncated : forall fuel recs k n s,
   k < length (data_stream recs) ->
   i_stage s = 2 -> i_got_cn s = false -> i_reof s = true ->
   i_rbio s = firstn k (data_stream recs) ->
-  forall o, In o (drain D fuel s n) -> o = SErr ESslEof \/ o = SWantRead \/ exists v, o = SOk (S v).
+  forall o, In o (drain D fuel s n) -> o = SErr ESslEof \/ o = SErr ESslOther \/ o = SWantRead \/ exists v, o = SOk (S v).
 Proof.
   induction fuel as [| fuel IH]; intros recs k n s Hn Hk Hst Hcn Heof Hbio o Hin; [destruct Hin |].
   cbn [drain] in Hin. unfold read in Hin. rewrite Hst in Hin. cbn [Nat.eqb negb] in Hin.
@@ -334,15 +334,14 @@ Proof.
       destruct (Nat.leb (2 + length r) k) eqn:L.
       * apply Nat.leb_le in L. replace (N.eqb T_DATA T_DATA) with true in Hin by reflexivity.
         destruct r as [| r0 r'].
-        -- (* empty data record: ignored *)
-           cbn [upd i_reof] in Hin. rewrite Heof in Hin. destruct Hin as [<- | Hin]; [auto |].
-           eapply (IH recs (k - (2 + length (@nil byte))) n) in Hin; eauto; cbn [length] in *; try lia.
+        -- (* empty data record: a protocol error in the ideal layer *)
+           destruct Hin as [<- | []]. auto.
         -- cbn [length firstn] in Hin. destruct n as [| n']; [lia |]. cbn [firstn length] in Hin.
-           destruct Hin as [<- | Hin]; [right; right; eauto |].
+           destruct Hin as [<- | Hin]; [right; right; right; eauto |].
            eapply (IH recs (k - (2 + length (r0 :: r'))) (S n')) in Hin; eauto; cbn [length] in *; try lia.
       * unfold starved in Hin. rewrite Heof in Hin. destruct Hin as [<- | []]. auto.
   - destruct n as [| n']; [lia |]. cbn [firstn length] in Hin.
-    destruct Hin as [<- | Hin]; [right; right; eauto |].
+    destruct Hin as [<- | Hin]; [right; right; right; eauto |].
     eapply (IH recs k (S n')) in Hin; eauto.
 Qed.
 
@@ -353,7 +352,7 @@ Lemma drain_truncated_never_clean : forall fuel recs k n s,
 Proof.
   intros fuel recs k n s Hn Hk Hst Hcn Heof Hbio Hin.
   eapply drain_truncated in Hin; eauto.
-  destruct Hin as [H | [H | [v H]]]; discriminate.
+  destruct Hin as [H | [H | [H | [v H]]]]; discriminate.
 Qed.
 
 (* the first unwrap() of an established session whose incoming BIO is not at end-of-file produces the close
